@@ -709,6 +709,8 @@ def plan(tier):
     else:
         for b in BASES:
             runs.append(("full", b, 3 if b in ("mixed", "opt/copt", "copt", "empty/opt+arg") else 2, True))
+        for b in ("mixed", "opt/copt"):
+            runs.append(("nonames", b, 99, True))
         for b in ("none", "mixed"):
             runs.append(("names", b, 5, True))
         runs.append(("options", "opt", 2, False))
